@@ -217,6 +217,11 @@ COMMENT = {"none": None, "other": "/* unrelated comment */", "fltr": "/* bgpfu-f
            "prefix-only-similar": "/* xbgpfu-fltr: {e} */",
            "fltr-doublestar": "/** bgpfu-fltr: {e} **/", "fltr-slashes": "// bgpfu-fltr: {e}", "fltr-unterminated": "/* bgpfu-fltr: {e}"}
 
+INACTIVE_TERM = ('<term xmlns:jcmd="http://yang.juniper.net/junos/jcmd" jcmd:active="false"><name>old</name><from><protocol>bgp</protocol></from>'
+                 '<then><accept/></then></term>')
+RAW_BODY = {"reject+inactive-term": "raw:<then><reject/></then>" + INACTIVE_TERM,
+            "inactive-term+reject": "raw:" + INACTIVE_TERM + "<then><reject/></then>"}
+
 def shape_scenarios(cases, prop):
     out = []
     for k, c in enumerate(cases):
@@ -224,8 +229,9 @@ def shape_scenarios(cases, prop):
         e = irr.asset_with(["a"], ["c"]); ctl = irr.asset_with(["d"], [])
         com = COMMENT[sh["comment"]]
         com = com.format(e=e) if com else None
-        name = "shape<&>\"'" if k % 7 == 3 else f"shape-{k}"       # escaped characters in names now and then
-        st = stmt(name, com, None if sh["active"] == "absent" else sh["active"], sh["body"], sh["order"], sh["dupxmlns"], sh["extra"])
+        # escaped characters in names now and then, and names that begin or end with a blank (quoted names may)
+        name = {3: "shape<&>\"'", 5: f" lead-{k}", 6: f"trail-{k} "}.get(k % 7, f"shape-{k}")
+        st = stmt(name, com, None if sh["active"] == "absent" else sh["active"], RAW_BODY.get(sh["body"], sh["body"]), sh["order"], sh["dupxmlns"], sh["extra"])
         why = " ".join(f"{a}={sh[a]}" for a in ("active", "comment", "body"))
         pol = {name: exp(c["sel"], c["marked"], "ok" if c["sel"] else "none", ["a"] if c["sel"] else [], ["c"] if c["sel"] else [],
                          e if c["sel"] else "", why),
